@@ -79,6 +79,22 @@ pub fn op_general(args: &[Sexp]) -> String {
     format!("ok ({})", fmt_pts(&out))
 }
 
+/// `tf.gchain ((x y refl f<angle>) ...) (pts)`: a chain of placements at arbitrary angles, cascaded
+/// outermost first with `Transform::cascade`, applied to the points (model: unsupported)
+pub fn op_gchain(args: &[Sexp]) -> String {
+    let chain = match args.get(0).and_then(|c| c.list()) { Some(c) => c, None => return "bad-op".into() };
+    let pts = match args.get(1).and_then(|q| q.list()).and_then(crate::props::c13::parse_pts) { Some(p) => p, None => return "bad-op".into() };
+    let mut t = Transform::identity();
+    for pl in chain {
+        let l0 = match pl.list() { Some(l) if l.len() == 4 => l, _ => return "bad-op".into() };
+        let (x, y, refl, ab) = match (l0[0].int(), l0[1].int(), l0[2].boolean(), l0[3].f64bits()) { (Some(x), Some(y), Some(r), Some(a)) => (x, y, r, a), _ => return "bad-op".into() };
+        let it = Transform::from_instance(&Point::new(x as isize, y as isize), refl, Some(f64::from_bits(ab)));
+        t = Transform::cascade(&t, &it);
+    }
+    let out: Vec<P2> = pts.iter().map(|p| { let r = Point::new(p.0 as isize, p.1 as isize).transform(&t); (r.x as i64, r.y as i64) }).collect();
+    format!("ok ({})", fmt_pts(&out))
+}
+
 struct CellSpec {
     shapes: Vec<Vec<P2>>,
     insts: Vec<(usize, Place)>,
@@ -245,6 +261,31 @@ pub fn oracle(line: &str) -> String {
             }
             "pass".into()
         }
+        "tf.gchain" => {
+            // exact real-valued composition, innermost placement applied first; one final rounding
+            let chain = p[1].list().unwrap_or(&[]);
+            let pts = crate::props::c13::parse_pts(p[2].list().unwrap_or(&[])).unwrap_or_default();
+            let got = match Sexp::parse_all(&res).and_then(|r| r.get(1).and_then(|l| l.list().and_then(crate::props::c13::parse_pts))) {
+                Some(g) => g,
+                None => return format!("fail {}", res),
+            };
+            for (q, g) in pts.iter().zip(got.iter()) {
+                let (mut ex, mut ey) = (q.0 as f64, q.1 as f64);
+                for pl in chain.iter().rev() {
+                    let l0 = pl.list().unwrap();
+                    let (x, y, refl, ab) = (l0[0].int().unwrap(), l0[1].int().unwrap(), l0[2].boolean().unwrap(), l0[3].f64bits().unwrap());
+                    let (sn, cs) = f64::from_bits(ab).to_radians().sin_cos();
+                    let py = if refl { -ey } else { ey };
+                    let nx = cs * ex - sn * py + x as f64;
+                    let ny = sn * ex + cs * py + y as f64;
+                    ex = nx; ey = ny;
+                }
+                if (g.0 as f64 - ex).abs() > 0.5 + 1e-4 || (g.1 as f64 - ey).abs() > 0.5 + 1e-4 {
+                    return format!("fail nested general angles: point ({} {}) mapped to ({} {}) but the composition sends it to ({:.4} {:.4})", q.0, q.1, g.0, g.1, ex, ey);
+                }
+            }
+            "pass".into()
+        }
         "raw.flatten" => {
             // reference: recursive flatten with the integer placement semantics
             let cells = match parse_cells(&p[1]) {
@@ -289,6 +330,7 @@ pub fn tag(line: &str) -> String {
             format!("apply:depth{}:refl{}", chain.len(), refl)
         }
         "tf.general" => "general".into(),
+        "tf.gchain" => "general-chain".into(),
         "raw.flatten" => {
             let n = p[1].list().map(|l| l.len()).unwrap_or(0);
             format!("flatten:cells{}", n.min(6))
@@ -354,6 +396,23 @@ pub fn gen(thorough: bool, rng: &mut Rng, out: &mut Vec<String>) {
         let s = [10i64, 1000, 1 << 20][rng.below(3) as usize];
         let pts: Vec<P2> = (0..6).map(|_| (rng.range(-s, s), rng.range(-s, s))).collect();
         out.push(format!("tf.general ({} {} {} {}) ({})", rng.range(-s, s), rng.range(-s, s), if rng.coin() { "#t" } else { "#f" }, of_f64(ang.to_bits()), fmt_pts(&pts)));
+    }
+    // general angles, nested 2–4 levels deep (small offsets and points, so that an intermediate
+    // rounding of the accumulated origin shows against the half-unit tolerance)
+    for _ in 0..(if thorough { 20000 } else { 2000 }) {
+        let depth = 2 + rng.below(3) as usize;
+        let s = [3i64, 10, 1000][rng.below(3) as usize];
+        let chain: Vec<String> = (0..depth).map(|_| {
+            let ang: f64 = match rng.below(4) {
+                0 => [30.0, 45.0, 60.0, 135.0, 225.0, 315.0, 0.5, 89.99, 90.01][rng.below(9) as usize],
+                1 => rng.range(-7200, 7200) as f64 / 10.0,
+                2 => [0.0, 90.0, 180.0, 270.0][rng.below(4) as usize],
+                _ => (rng.next() as f64 / u64::MAX as f64) * 360.0,
+            };
+            format!("({} {} {} {})", rng.range(-s, s), rng.range(-s, s), if rng.coin() { "#t" } else { "#f" }, of_f64(ang.to_bits()))
+        }).collect();
+        let pts: Vec<P2> = (0..6).map(|_| (rng.range(-s, s), rng.range(-s, s))).collect();
+        out.push(format!("tf.gchain ({}) ({})", chain.join(" "), fmt_pts(&pts)));
     }
     // hierarchies: acyclic cell DAGs (cell i instantiates only cells > i), flatten cell 0
     for _ in 0..(if thorough { 20000 } else { 2000 }) {
